@@ -2,6 +2,7 @@
 import json
 import os
 import re
+import struct
 
 import vlib
 from runner import PropBase
@@ -78,8 +79,8 @@ def addr_ok(v, width32):
 
 class C15(PropBase):
     pid = "C15"
-    coq_dirs = ["Base", "C15"]
-    translators = ["c15_enums.py"]
+    coq_dirs = ["Base", "C08", "C19", "C15"]
+    translators = ["c15_enums.py", "bitflip_consts.py"]
     bins = ["c15"]
     has_model_driver = False        # two-stage: the model renders from the facts the harness prints (see extra)
     impl_mem_gb = 6
@@ -262,10 +263,10 @@ class C15(PropBase):
     # ------------------------------------------------------------------ oracle
     def split(self, ans):
         parts = ans.split("\t")
-        if len(parts) != 4 or not parts[0].startswith("F ") or not parts[1].startswith("V ") or not parts[2].startswith("J ") \
-                or not parts[3].startswith("P "):
+        if len(parts) != 5 or not parts[0].startswith("F ") or not parts[1].startswith("V ") or not parts[2].startswith("J ") \
+                or not parts[3].startswith("P ") or not parts[4].startswith("C"):
             return None
-        return parts[0][2:], parts[1][2:], parts[2][2:], parts[3][2:]
+        return parts[0][2:], parts[1][2:], parts[2][2:], parts[3][2:], parts[4][2:]
 
     def oracle(self, case, ans, profile):
         if ans.startswith("P;;"):
@@ -273,7 +274,8 @@ class C15(PropBase):
         sp = self.split(ans)
         if sp is None:
             return "unparseable harness answer " + ans[:80]
-        _facts, _view, jhex, phex = sp
+        _facts, _view, jhex, phex, confbits = sp
+        compact_text = None
         docs = []
         for label, h in (("compact", jhex), ("pretty", phex)):
             raw = bytes.fromhex(h) if h != "-" else b""
@@ -285,6 +287,8 @@ class C15(PropBase):
                 docs.append(strict_loads(text))
             except ValueError as e:
                 return "%s output is not valid JSON: %s" % (label, e)
+            if label == "compact":
+                compact_text = text
             if label == "compact" and re.search(r"[\x00-\x1f]", text):
                 return "compact output contains a raw control character"
         doc = docs[0]
@@ -416,6 +420,31 @@ class C15(PropBase):
         for where, v in addrs(doc):
             if v is not None and not addr_ok(v, width32):
                 return "%s = %r is not padded to the platform's pointer width (%s)" % (where, v, "32-bit" if width32 else "64-bit/unknown")
+        # possible_bit_flips[].confidence: the printed decimal must denote exactly the binary32 value (f32::to_bits from the
+        # ProcessState), lie in [0,1], and be a shortest round-tripping decimal (what serde_json's ryu writer promises)
+        flips = ci.get("possible_bit_flips") or []
+        want_bits = [x for x in confbits.split(",") if x]
+        texts = re.findall(r'"confidence":(-?[0-9.eE+-]+|null)', compact_text)
+        if len(flips) != len(want_bits) or len(texts) != len(flips):
+            return "possible_bit_flips: %d entries, %d confidences in the state, %d printed" % (len(flips), len(want_bits), len(texts))
+        for i, (t, wb) in enumerate(zip(texts, want_bits)):
+            if (t == "null") != (wb == "-"):
+                return "possible_bit_flips[%d].confidence %s but the state has %s" % (i, t, wb)
+            if t == "null":
+                continue
+            bits = struct.unpack("<I", struct.pack("<f", float(t)))[0]
+            if bits != int(wb):
+                return "possible_bit_flips[%d].confidence prints %s = f32 bits %#x, the state holds %#x" % (i, t, bits, int(wb))
+            if not (0.0 <= float(t) <= 1.0):
+                return "possible_bit_flips[%d].confidence %s outside [0,1]" % (i, t)
+            # print_json goes through serde_json::Value, which widens the f32 to f64: the text is the shortest decimal of
+            # the WIDENED value (e.g. 0.3687499761581421), so it must equal that double exactly and be as short as repr()
+            wide = struct.unpack("<f", struct.pack("<I", bits))[0]
+            if float(t) != wide:
+                return "possible_bit_flips[%d].confidence %s is not exactly the binary32 value %r" % (i, t, wide)
+            nd = lambda x: len(re.sub(r"[^0-9]", "", re.split(r"[eE]", x)[0]).strip("0")) or 1
+            if nd(t) > nd(repr(wide)):
+                return "possible_bit_flips[%d].confidence %s is longer than the shortest round-tripping decimal %r" % (i, t, wide)
         if doc.get("pid") is not None and not isinstance(doc.get("pid"), int):
             return "pid not an integer"
         return deferred
@@ -481,9 +510,13 @@ class C15(PropBase):
             for i, line, r in zip(idx, lines, res):
                 compared += 1
                 view = line.split("\t", 1)[1]
-                mview, _, ok = (r or "").rpartition("\t")
+                mview, ok, mconf = ((r or "").split("\t") + ["", "", ""])[:3]
                 what = None
-                if mview != view:
+                hconf = self.split(answers[i])[4]
+                if mconf != hconf:
+                    what = ("correspondence: confidence of the reported bit flips — the exact binary32 model (C19) computes bits [%s] from the "
+                            "details the report prints, the state holds [%s]" % (mconf, hconf))
+                elif mview != view:
                     what = "correspondence: the model's rendering of the modelled fields differs from print_json's"
                 elif ok != "1":
                     what = "correspondence: the model's parser does not accept / reproduce the real view"
